@@ -98,36 +98,48 @@ theorem lookups_keep_stored (acl : Acl) (probes : List Nat) :
   matchAll_keeps probes acl []
 
 /-! ### counterexamples: every excluded region is needed (all by evaluation of the model; the same inputs are in corpus/C42
-and behave identically in the real code) -/
+and behave identically in the real code).  Each is stated for the tree as it is: the behaviour flags of `Gen.IpAcl` are probed by
+running the staged code and are all `false` on the pinned tree; a tree that carries one of the candidate fixes in
+notes/fixes/C42-*.diff flips the flag, the model follows it, and the counterexample becomes vacuous. -/
 
 /-- a single IPv4 address as a token -/
 def one4 (a : Nat) : Token := .item ⟨.v4, a, none, .none⟩
 
 /-- `acl x dst ::1 0.0.0.0` does not match `::1`; written in the other order it does.  (`Tame` fails: `0.0.0.0` meets `::1`.) -/
-theorem anyaddr_order_counterexample :
-    verdicts [.item ⟨.v6, 1, none, .none⟩, .item ⟨.v4, 0, none, .none⟩] [1, V4ANY] = some [false, true] ∧
+theorem anyaddr_order_counterexample  :
+    Gen.IpAcl.plainOrder = false →
+   (verdicts [.item ⟨.v6, 1, none, .none⟩, .item ⟨.v4, 0, none, .none⟩] [1, V4ANY] = some [false, true] ∧
     verdicts [.item ⟨.v4, 0, none, .none⟩, .item ⟨.v6, 1, none, .none⟩] [1, V4ANY] = some [true, true] ∧
-    unionB [.item ⟨.v6, 1, none, .none⟩, .item ⟨.v4, 0, none, .none⟩] 1 = true := by decide
+    unionB [.item ⟨.v6, 1, none, .none⟩, .item ⟨.v4, 0, none, .none⟩] 1 = true) := by
+  first | (intro h; exact absurd h (by decide)) | (intro _; decide)
 
 /-- `acl x src ::1-::5` matches the client address `0.0.0.0`.  (`ProbeOK` fails.) -/
-theorem range_matches_anyaddr_counterexample :
-    verdicts [.item ⟨.v6, 1, some 5, .none⟩] [V4ANY] = some [true] ∧
-    unionB [.item ⟨.v6, 1, some 5, .none⟩] V4ANY = false := by decide
+theorem range_matches_anyaddr_counterexample  :
+    Gen.IpAcl.plainOrder = false →
+   (verdicts [.item ⟨.v6, 1, some 5, .none⟩] [V4ANY] = some [true] ∧
+    unionB [.item ⟨.v6, 1, some 5, .none⟩] V4ANY = false) := by
+  first | (intro h; exact absurd h (by decide)) | (intro _; decide)
 
 /-- `acl x src 2001:db8::1-2001:db8::ff` matches the address `255.255.255.255`.  (`ProbeOK` fails.) -/
-theorem range_matches_noaddr_counterexample :
-    verdicts [.item ⟨.v6, 0x20010db8000000000000000000000001, some 0x20010db80000000000000000000000ff, .none⟩] [V4NO] = some [true] ∧
-    unionB [.item ⟨.v6, 0x20010db8000000000000000000000001, some 0x20010db80000000000000000000000ff, .none⟩] V4NO = false := by decide
+theorem range_matches_noaddr_counterexample  :
+    Gen.IpAcl.plainOrder = false →
+   (verdicts [.item ⟨.v6, 0x20010db8000000000000000000000001, some 0x20010db80000000000000000000000ff, .none⟩] [V4NO] = some [true] ∧
+    unionB [.item ⟨.v6, 0x20010db8000000000000000000000001, some 0x20010db80000000000000000000000ff, .none⟩] V4NO = false) := by
+  first | (intro h; exact absurd h (by decide)) | (intro _; decide)
 
 /-- the masked client address is what counts: `acl x src ::-::2000/115` matches `0.0.0.1`. -/
-theorem masked_probe_counterexample :
-    verdicts [.item ⟨.v6, 0, some 0x2000, .cidr 115⟩] [V4ANY + 1] = some [true] ∧
-    unionB [.item ⟨.v6, 0, some 0x2000, .cidr 115⟩] (V4ANY + 1) = false := by decide
+theorem masked_probe_counterexample  :
+    Gen.IpAcl.plainOrder = false →
+   (verdicts [.item ⟨.v6, 0, some 0x2000, .cidr 115⟩] [V4ANY + 1] = some [true] ∧
+    unionB [.item ⟨.v6, 0, some 0x2000, .cidr 115⟩] (V4ANY + 1) = false) := by
+  first | (intro h; exact absurd h (by decide)) | (intro _; decide)
 
 /-- `acl x src ::/0` matches only `::`.  (`Item.Regular.nz` fails: the mask is /0.) -/
-theorem v6_slash_zero_counterexample :
-    verdicts [.item ⟨.v6, 0, none, .cidr 0⟩] [0, 1] = some [true, false] ∧
-    unionB [.item ⟨.v6, 0, none, .cidr 0⟩] 1 = true := by decide
+theorem v6_slash_zero_counterexample  :
+    Gen.IpAcl.slashZeroIsEverything = false →
+   (verdicts [.item ⟨.v6, 0, none, .cidr 0⟩] [0, 1] = some [true, false] ∧
+    unionB [.item ⟨.v6, 0, none, .cidr 0⟩] 1 = true) := by
+  first | (intro h; exact absurd h (by decide)) | (intro _; decide)
 
 /-- an IPv6-syntax range that ends at `::ffff:0.0.0.0` is read as its first address alone.  (`Item.Regular.deg` fails.) -/
 theorem range_end_anyaddr_counterexample :
@@ -136,9 +148,11 @@ theorem range_end_anyaddr_counterexample :
 
 /-- a reversed range followed by a range that covers it: `Compare(v, v) ≠ 0`, `Merge` cannot find the stored value it is about to
 free — the real code then reads freed memory (ASan: heap-use-after-free).  (`Item.Regular.r2` fails: the range is reversed.) -/
-theorem reversed_range_dangling_counterexample :
-    parse [.item ⟨.v4, 0x0a000005, some 0x0a000003, .none⟩, .item ⟨.v4, 0x0a000001, some 0x0a000009, .none⟩] = .dangling ∧
-    Ip.compare ⟨V4ANY + 0x0a000005, V4ANY + 0x0a000003, ALL1⟩ ⟨V4ANY + 0x0a000005, V4ANY + 0x0a000003, ALL1⟩ = -1 := by decide
+theorem reversed_range_dangling_counterexample  :
+    Gen.IpAcl.rejectsReversedRange = false →
+   (parse [.item ⟨.v4, 0x0a000005, some 0x0a000003, .none⟩, .item ⟨.v4, 0x0a000001, some 0x0a000009, .none⟩] = .dangling ∧
+    Ip.compare ⟨V4ANY + 0x0a000005, V4ANY + 0x0a000003, ALL1⟩ ⟨V4ANY + 0x0a000005, V4ANY + 0x0a000003, ALL1⟩ = -1) := by
+  first | (intro h; exact absurd h (by decide)) | (intro _; decide)
 
 /-! ### the hypotheses are satisfiable and the reference reading is not vacuous -/
 
